@@ -64,7 +64,10 @@ InC11(p) == \/ \E l \in 0..32, s \in Sites : \E bl \in Lists(l) :
             \/ \E x \in {"bitlen33", "bitlen40", "bitlen255", "shortbytes", "padding", "family_v6",
                          "garbage", "empty_value", "manyentries", "nested",
                          \* a malformed entry FOLLOWED by a well-formed block that contains the peer: the extension is malformed
-                         "bitlen40_then_good", "bitlen33_then_good", "bitlen255_then_good"}, s \in Sites \ {"readback", "mint"}, a \in {Base, 16843009} :
+                         "bitlen40_then_good", "bitlen33_then_good", "bitlen255_then_good",
+                         \* an address family that is not IPv4 unicast (too short to be a family, multicast, too long) over good prefixes
+                         \* (AFI without SAFI is legal in RFC 3779 and is not judged)
+                         "family_short0", "family_short1", "family_multicast", "family_long"}, s \in Sites \ {"readback", "mint"}, a \in {Base, 16843009} :
                  p = [blocks |-> <<Blk(Base, 8)>>, peer |-> Peer("v4", a), site |-> s, ext |-> x]
             \/ p = [blocks |-> [i \in 1..32 |-> Blk(Base + i * Pow2(8), 32)], peer |-> Peer("v4", Base + 7 * Pow2(8)), site |-> "checkauth", ext |-> "wellformed"]
 
